@@ -295,6 +295,123 @@ func init() {
 				out.Violate("C15|fail-closed-multi", fmt.Sprintf("a bad file among several: exit %d and %d output lines", r.code, strings.Count(r.stdout, "\n")), nil, nil, nil)
 			}
 		}
+		// several files per invocation, mixed suffixes and encodings: every file is decoded as it would be alone under
+		// the same -format (the format is a function of the flag and of that file's own suffix), output lines appear in
+		// order, and the first failing file ends the run with a non-zero exit
+		{
+			nSeq := 24
+			if tier() == "thorough" {
+				nSeq = 300
+			}
+			type fileSpec struct {
+				ci          int
+				enc, suffix string
+			}
+			content := func(f fileSpec) []byte {
+				der := certs[f.ci].DER
+				switch f.enc {
+				case "pem":
+					return pem.EncodeToMemory(&pem.Block{Type: "CERTIFICATE", Bytes: der})
+				case "b64":
+					return []byte(base64.StdEncoding.EncodeToString(der))
+				}
+				return der
+			}
+			alone := map[string]cliRun{}
+			dir := filepath.Join(tmp, "multi")
+			os.MkdirAll(dir, 0o700)
+			for i := 0; i < nSeq; i++ {
+				flag := pick(rng, []string{"", "pem", "der", "base64"})
+				k := 2 + rng.Intn(3)
+				var argv []string
+				if flag != "" {
+					argv = []string{"-format", flag}
+				}
+				var paths []string
+				var specs []fileSpec
+				for j := 0; j < k; j++ {
+					f := fileSpec{rng.Intn(minInt(len(certs), 6)), pick(rng, []string{"pem", "der", "b64"}), pick(rng, []string{".pem", ".der", ".crt", ".cer", ".b64", ""})}
+					// mostly files that decode under (flag, suffix): otherwise every sequence ends at its first file
+					if rng.Intn(4) != 0 {
+						switch {
+						case f.suffix == ".pem":
+							f.enc = "pem"
+						case f.suffix == ".der":
+							f.enc = "der"
+						case flag == "" || flag == "pem":
+							f.enc = "pem"
+						case flag == "der":
+							f.enc = "der"
+						default:
+							f.enc = "b64"
+						}
+					}
+					pth := filepath.Join(dir, fmt.Sprintf("f%d_%d%s", i, j, f.suffix))
+					os.WriteFile(pth, content(f), 0o600)
+					paths = append(paths, pth)
+					specs = append(specs, f)
+				}
+				r := runCLI(bin, append(append([]string{}, argv...), paths...), nil)
+				invocations++
+				var wantOut strings.Builder
+				wantFail := false
+				var firstBad int = -1
+				for j, pth := range paths {
+					key := fmt.Sprintf("%s|%d|%s|%s", flag, specs[j].ci, specs[j].enc, specs[j].suffix)
+					a, ok := alone[key]
+					if !ok {
+						a = runCLI(bin, append(append([]string{}, argv...), pth), nil)
+						invocations++
+						alone[key] = a
+					}
+					if a.code != 0 {
+						wantFail = true
+						firstBad = j
+						break
+					}
+					wantOut.WriteString(a.stdout)
+				}
+				desc := map[string]interface{}{"format_flag": flag, "files": specs}
+				same := true
+				gl, wl := strings.Split(strings.TrimSuffix(r.stdout, "\n"), "\n"), strings.Split(strings.TrimSuffix(wantOut.String(), "\n"), "\n")
+				if len(gl) != len(wl) {
+					same = false
+				} else {
+					for j := range gl {
+						if gl[j] == wl[j] {
+							continue
+						}
+						if ok, _ := equalResults(gl[j], wl[j], map[string]bool{"e_key_usage_and_extended_key_usage_inconsistent": true, "e_ext_duplicate_extension": true}); !ok {
+							same = false
+						}
+					}
+				}
+				if (r.code != 0) != wantFail || !same {
+					out.Violate("C15|multi-file-differs-from-alone", fmt.Sprintf("files given together (exit %d, %d lines) behave differently from the same files given alone with the same flags (first failing alone: %d)", r.code, len(gl), firstBad),
+						desc, map[string]interface{}{"fail": wantFail, "lines": len(wl)}, map[string]interface{}{"exit": r.code, "stderr": strings.TrimSpace(r.stderr)})
+				}
+				// per-file observations for the model: files before the first failure were decoded, that one was not
+				printed := strings.Count(r.stdout, "\n")
+				for j := range paths {
+					if j > printed {
+						break
+					}
+					obs := 1
+					if j == printed {
+						if r.code == 0 {
+							break
+						}
+						obs = 0
+					}
+					blk, b64ok, rawOK := oracles(content(specs[j]))
+					fl := flag
+					if fl == "" {
+						fl = "pem"
+					}
+					addCase(fl, filepath.Base(paths[j]), blk, b64ok, rawOK, obs, map[string]interface{}{"multi": desc, "position": j})
+				}
+			}
+		}
 		// undecodable inputs and unknown selectors: non-zero exit, no result object
 		good := filepath.Join(tmp, "good.pem")
 		os.WriteFile(good, pem.EncodeToMemory(&pem.Block{Type: "CERTIFICATE", Bytes: certs[0].DER}), 0o600)
